@@ -8,7 +8,7 @@ SPEC = {
     "level_note": "Bounded only by u64 stake sums; validators abstracted into 8 Venn regions (exact for predicates that depend on sums only). Trusted: the composition argument (Alpenglow white paper, safety lemmas), Kani/CBMC/CaDiCaL.",
     "overlays": [{"src": "C01/kani_c01.rs", "dest": "src/consensus/epoch_info/kani_c01.rs", "decl_in": "src/consensus/epoch_info.rs", "decl": "mod kani_c01;"}],
     "functions": F,
-    "bounds": "quick: region stakes < 2^16; thorough: also < 2^32 and full 64-bit (25 min cap each; the 64-bit instances are hard for a SAT back end and are reported inconclusive if the cap is hit)",
+    "bounds": "quick: region stakes < 2^16; thorough: < 2^32 for all three lemmas and full 64-bit for the plain intersection lemma (the other two exceed the time cap at 64 bits: pure 128-bit multiplication UNSAT proofs are hard for a SAT back end; measured 940 s and > 1200 s)",
     "explanation": "Bounded symbolic verification (Kani -> CBMC -> CaDiCaL) of quorum-intersection lemmas over the real EpochInfo::is_*quorum / Fraction::is_met code with symbolic 64-bit stakes.",
     "assumptions": ["total stake fits u64 and is non-zero (EpochInfo::new)", "composition of the local obligations into multi-node agreement is trusted (paper proof)"],
     "trusted_base": ["Venn-region abstraction of validator sets"],
@@ -21,5 +21,8 @@ SPEC = {
                           ("fast_final_excludes_fallback", "80% quorum excludes 40%/60% elsewhere"),
                           ("final_excludes_conflicting_cert", "60% final quorum excludes conflicting 60%")]
         for w in (16, 32, 64)
+        # full 64-bit stakes: only the plain intersection lemma finishes inside the 20 min cap (371 s); the other two
+        # need 940 s / > 1200 s of SAT time and would make the thorough tier flaky, so they are checked up to 32 bits
+        if not (w == 64 and n != "quorum_intersection")
     ],
 }
